@@ -152,8 +152,8 @@ PROP = {
     "level_text": "Bounded symbolic execution of pint's real position code (diags.NewPositionRange, appendPosition, countLeadingSpace, readRange, PositionRanges.Len/Lines/AddOffset; parser.newYamlNode/newPromQLExpr/newYamlMap and the line-range accumulation of parseRule) over source lines and values made of symbolic bytes. (L1) for every lines/value/Line/Column/minColumn inside the node invariant and the size bound: no panic, every returned range inside the file, ranges strictly increasing, and the characters read back from the file at the returned columns spell the value in order up to line-break whitespace. (L2) readRange(first,last,pos) is exactly places first..last of the flattened list for all 1<=first<=last<=Len; Len, Lines, AddOffset meet their meaning. (L3) for every layout of a field `<indent>key: <scalar>` in the nine listed scalar styles (indent 0..3, continuation indent 2..3(4), optional trailing comment, value on the key line or the next one, siblings before/after) with content bytes from the stated alphabet, the reported positions are exactly the places where the generator put each value byte, and parseRule's rule line range is exactly the rule's lines.",
     "level_note": "What yaml.v3 reports for each layout (Value, Line, Column of the value node, Column of the key node) is an assumption of the generator: the symbolic run replaces yaml.Unmarshal by the generator's nodes, every natively replayed witness/counterexample parses the rendered text with the real yaml.v3 and fails the harness on a difference, and tools/c06_genvalidate.sh checked all layouts with concrete bytes against the real library (notes/C06.md). Two genuine mis-positions on the unchanged tree are excluded from the default jobs by assumption and kept as C06_FINDINGS=1 jobs with signatures (notes/C06.md). PromQL parsing is cut in the parser run.",
     "runs": [
-        {"pkg": "./internal/diags", "harness": ["harness/C06/position.go", "harness/C06/gen.go", "harness/C06/layout.go"], "intmode": True, "jobs": diags_jobs},
-        {"pkg": "./internal/parser", "harness": ["harness/C06/gen_parser.go", "harness/C06/parser.go"], "intmode": True, "jobs": parser_jobs},
+        {"pkg": "./internal/diags", "harness": ["harness/C06/position.go", "harness/C06/gen.go", "harness/C06/layout.go"], "intmode": True, "consttrees": True, "jobs": diags_jobs},
+        {"pkg": "./internal/parser", "harness": ["harness/C06/gen_parser.go", "harness/C06/parser.go"], "intmode": True, "consttrees": True, "jobs": parser_jobs},
     ],
     "bounds": {
         "L1 read-back": "quick: 2 lines of <= 4 bytes with values of 0..3 bytes (every Line/Column/minColumn combination), 3 lines of 3/0/3 bytes with value 2 (all) and 3/3/3 with value 3 (all); thorough: 2x4 bytes with values 0..4 (all combinations), 3x3 with values 3 (all) and 4 (every 4th), 4/0/4, 4/4/4 and 5/5 with value 3 (every 2nd/6th/3rd), 7/6 with value 4 (every 12th)",
